@@ -275,5 +275,5 @@ MANIFEST = {
     "text": "exploration: over thousands (quick) / 200 000 (thorough) generated ordered pairs x 5 skip lists, every True answer was confirmed as same action + exact inclusion by interval and bit algebra (no packet sampling), and no answer turned from False to True when a skip option was added; query / in-place member edit / query histories must answer for the current members and agree with freshly built objects",
     "note": "trusted: lib/refsem.py inclusion algebra and its flag/port conventions; bounded to k<=4 non-contiguous bits and <=4 group members; a ValueError from shadow_of is counted as 'no answer'",
 }
-MANIFEST["engine"] += " + atheris (coverage-guided twins of the Hypothesis sub-checks, fuzz/fuzz_hyp.py: 2 jobs x 8 s quick, 8 jobs x 200 s thorough)"
+MANIFEST["engine"] = MANIFEST.get("engine", "hypothesis") + " + atheris (coverage-guided twins of the Hypothesis sub-checks, fuzz/fuzz_hyp.py: 2 jobs x 8 s quick, 8 jobs x 200 s thorough)"
 MANIFEST["technique"] += "; plus coverage-guided fuzzing of the same strategies (atheris/libFuzzer mutates the byte stream Hypothesis decodes into cases, the same oracle runs inside the target, findings are re-judged outside it)"
